@@ -1306,6 +1306,8 @@ void rfbShutdownServer(rfbScreenInfoPtr screen,rfbBool disconnectClients) {
 #ifdef LIBVNCSERVER_HAVE_LIBPTHREAD
       /* the iterator's reference keeps currentCl alive only until the iterator moves on */
       pthread_t currentThread = currentCl->client_thread;
+      /* a client the application put on hold and never started has no thread at all */
+      rfbBool neverStarted = currentCl->onHold;
 #endif
       if (currentCl->sock != RFB_INVALID_SOCKET) {
         /* we don't care about maxfd here, because the server goes away */
@@ -1315,8 +1317,13 @@ void rfbShutdownServer(rfbScreenInfoPtr screen,rfbBool disconnectClients) {
 
 #ifdef LIBVNCSERVER_HAVE_LIBPTHREAD
     if(screen->backgroundLoop) {
-      /* Wait for threads to finish. The thread has already been pipe-notified by rfbCloseClient() */
-      pthread_join(currentThread, NULL);
+      if (neverStarted) {
+        /* nobody else will ever tear this client down */
+        rfbClientConnectionGone(currentCl);
+      } else {
+        /* Wait for threads to finish. The thread has already been pipe-notified by rfbCloseClient() */
+        pthread_join(currentThread, NULL);
+      }
     } else {
       /*
 	In threaded mode, rfbClientConnectionGone() is called by the client-to-server thread.
